@@ -25,4 +25,63 @@ theorem buildGlyfOld_offsets : ∀ (gs : List Bytes) (cur : Nat),
     simp only [buildGlyfOld, List.map_cons, glyphOffsetsOld]
     rw [buildGlyfOld_offsets gs]
 
+/-! ### `strip_glyph_instructions` -/
+
+theorem setU16_length (d : Bytes) (o v : Nat) : (setU16 d o v).length = d.length := by
+  simp [setU16]
+
+theorem stripComposite_length_le (g : Bytes) : (stripComposite g).length ≤ g.length := by
+  unfold stripComposite
+  split
+  · exact Nat.le_refl _
+  · simp only []
+    split
+    · exact Nat.le_refl _
+    · rw [setU16_length]; simp [List.length_take]; omega
+
+/-- stripping never grows a glyph -/
+theorem stripInstructions_length_le (g : Bytes) : (stripInstructions g).length ≤ g.length := by
+  unfold stripInstructions
+  split
+  · exact Nat.le_refl _
+  · split
+    · exact stripComposite_length_le g
+    · simp only []
+      split
+      · exact Nat.le_refl _
+      · split
+        · exact Nat.le_refl _
+        · split
+          · exact Nat.le_refl _
+          · simp [List.length_append, List.length_take, List.length_drop]; omega
+
+/-- a simple glyph with a non-empty, in-range hinting program: the result is the header and
+    endPts, a zero instructionLength, and the untouched flag/coordinate bytes -/
+theorem stripInstructions_simple (g : Bytes) (h12 : 12 ≤ g.length) (hs : u16At g 0 < 32768)
+    (hil : u16At g (10 + u16At g 0 * 2) ≠ 0)
+    (hin : 10 + u16At g 0 * 2 + 2 + u16At g (10 + u16At g 0 * 2) ≤ g.length) :
+    stripInstructions g = g.take (10 + u16At g 0 * 2) ++ [0, 0] ++ g.drop (10 + u16At g 0 * 2 + 2 + u16At g (10 + u16At g 0 * 2)) := by
+  unfold stripInstructions
+  have h1 : ¬ g.length < 12 := by omega
+  have h2 : ¬ u16At g 0 ≥ 32768 := by omega
+  have h3 : ¬ (10 + u16At g 0 * 2 + 2 > g.length) := by omega
+  have h4 : ¬ (10 + u16At g 0 * 2 + 2 + u16At g (10 + u16At g 0 * 2) > g.length) := by omega
+  simp only [h1, h2, h3, h4, hil, if_false]
+
+theorem u16At_append_zero (a b : Bytes) (off : Nat) (hl : a.length = off) :
+    u16At (a ++ [0, 0] ++ b) off = 0 := by
+  subst hl
+  unfold u16At
+  simp [List.getD_eq_getElem?_getD]
+
+/-- … and stripping is idempotent there: the stripped glyph has instructionLength 0 -/
+theorem stripInstructions_simple_instrLen (g : Bytes) (h12 : 12 ≤ g.length) (hs : u16At g 0 < 32768)
+    (hil : u16At g (10 + u16At g 0 * 2) ≠ 0)
+    (hin : 10 + u16At g 0 * 2 + 2 + u16At g (10 + u16At g 0 * 2) ≤ g.length) :
+    u16At (stripInstructions g) (10 + u16At g 0 * 2) = 0 := by
+  rw [stripInstructions_simple g h12 hs hil hin]
+  have hl : (g.take (10 + u16At g 0 * 2)).length = 10 + u16At g 0 * 2 := by
+    simp [List.length_take]; omega
+  exact u16At_append_zero _ _ _ hl
+
 end OxiVerif.C12
